@@ -193,6 +193,36 @@ type c07World struct {
 	scorer      *resourceAllocationScorer
 	memMode     int // 0: memory asked as ratio only, 1: as bytes only, 2: mixed
 	nextPod     int
+	resized     map[int]bool // GPU minors whose memory size may differ from the size their holders were charged against
+}
+
+func (w *c07World) markResized(minor int) {
+	if w.resized == nil {
+		w.resized = map[int]bool{}
+	}
+	w.resized[minor] = true
+}
+
+// singleMemoryView reports whether every live holder of GPU memory on the device asked for it in the given view ("ratio" or
+// "bytes") against the device's present memory size. On such a device the documented truncating conversions guarantee that
+// the other view fits whenever the asked one does (sum of floor(r_i*T/100) <= T for sum r_i <= 100, and sum of
+// floor(100*b_i/T) <= 100 for sum b_i <= T), so a request in the same view must be served on its asked view alone.
+func (w *c07World) singleMemoryView(minor int, view string) bool {
+	if w.resized[minor] {
+		return false
+	}
+	ratioKey := c07Key(schedulingv1alpha1.GPU, minor, apiext.ResourceGPUMemoryRatio)
+	memKey := c07Key(schedulingv1alpha1.GPU, minor, apiext.ResourceGPUMemory)
+	for _, p := range w.live {
+		if p.Flat[ratioKey] == 0 && p.Flat[memKey] == 0 {
+			continue
+		}
+		askedRatio, askedBytes := p.Requested["gpu/"+string(apiext.ResourceGPUMemoryRatio)], p.Requested["gpu/"+string(apiext.ResourceGPUMemory)]
+		if (view == "ratio" && !(askedRatio && !askedBytes)) || (view == "bytes" && !(askedBytes && !askedRatio)) {
+			return false
+		}
+	}
+	return true
 }
 
 func c07AllocFlat(a apiext.DeviceAllocations) c07Flat {
@@ -358,6 +388,9 @@ type c07Request struct {
 	Pod   corev1.ResourceList
 	Per   map[schedulingv1alpha1.DeviceType]map[corev1.ResourceName]int64
 	Count map[schedulingv1alpha1.DeviceType]int
+	// MaxCount, when set for a type, is the largest number of devices a successful allocation may hand out (joint
+	// allocation gives a secondary device per PCIe switch of the primary devices); default: exactly Count.
+	MaxCount map[schedulingv1alpha1.DeviceType]int
 }
 
 // c07GPUPerDevice restates the documented conversion of a pod-level GPU request (after the nvidia.com/gpu and
@@ -745,10 +778,11 @@ func c07AllocStr(a apiext.DeviceAllocations) string {
 // checkAllocation is the allocation oracle: validity on success, completeness on refusal. free is the model's
 // free map just before the call. Returns true when the case must be abandoned (known finding).
 func (w *c07World) checkAllocation(c *vk.Case, t *rapid.T, req c07Request, free c07Flat, result apiext.DeviceAllocations, msg string, ctx func() string) bool {
-	// How many devices of each asked type could serve one per-device request right now. For the completeness direction a
-	// GPU only counts when the other view of its memory (bytes for a ratio request, ratio for a bytes request, which the
-	// plugin charges too when it commits) also fits, rounded against the request: an allocator that compares both views
-	// is as correct as one that compares only the requested one, so a refusal is an alarm only under the stricter reading.
+	// How many devices of each asked type could serve one per-device request right now: every asked resource has the
+	// asked amount free. Only on a GPU whose memory is held in MIXED views (some holder asked bytes, another a ratio, or the
+	// memory size changed under the holders) the completeness direction additionally wants the other view of the memory
+	// (which the plugin charges too when it commits) to fit, rounded against the request: there the two views of "free"
+	// legitimately disagree and an allocator that compares both is as correct as one that compares only the asked one.
 	feasible, feasibleWeak := true, true
 	qualifying := map[schedulingv1alpha1.DeviceType][]int{}
 	for _, dt := range c07Types {
@@ -772,10 +806,10 @@ func (w *c07World) checkAllocation(c *vk.Case, t *rapid.T, req c07Request, free 
 				total := d.Res[apiext.ResourceGPUMemory]
 				ratio, hasRatio := per[apiext.ResourceGPUMemoryRatio]
 				mem, hasMem := per[apiext.ResourceGPUMemory]
-				if hasRatio && !hasMem && free[c07Key(dt, d.Minor, apiext.ResourceGPUMemory)] < (ratio*total+99)/100 {
+				if hasRatio && !hasMem && !w.singleMemoryView(d.Minor, "ratio") && free[c07Key(dt, d.Minor, apiext.ResourceGPUMemory)] < (ratio*total+99)/100 {
 					continue
 				}
-				if hasMem && !hasRatio && total > 0 && free[c07Key(dt, d.Minor, apiext.ResourceGPUMemoryRatio)] < (100*mem+total-1)/total {
+				if hasMem && !hasRatio && total > 0 && !w.singleMemoryView(d.Minor, "bytes") && free[c07Key(dt, d.Minor, apiext.ResourceGPUMemoryRatio)] < (100*mem+total-1)/total {
 					continue
 				}
 			}
@@ -806,7 +840,11 @@ func (w *c07World) checkAllocation(c *vk.Case, t *rapid.T, req c07Request, free 
 			continue
 		}
 		got := result[dt]
-		if len(got) != req.Count[dt] {
+		maxCount := req.Count[dt]
+		if m := req.MaxCount[dt]; m > maxCount {
+			maxCount = m
+		}
+		if len(got) < req.Count[dt] || len(got) > maxCount {
 			return c.Violation(t, "alloc:wrong-device-count", "request [%s] asks %d %s device(s), allocation has %d: %s; %s", req.Desc, req.Count[dt], dt, len(got), c07AllocStr(result), ctx())
 		}
 		seen := map[int32]bool{}
@@ -1349,6 +1387,9 @@ func TestVerifC07History(t *testing.T) {
 							d.NUMA, d.PCIe = o.NUMA, o.PCIe
 						}
 					}
+					if dt == schedulingv1alpha1.GPU {
+						w.markResized(minor) // pods of a device that was removed earlier may still be charged against its old size
+					}
 					w.inv = append(w.inv, d)
 					sort.SliceStable(w.inv, func(i, j int) bool {
 						if w.inv[i].Type != w.inv[j].Type {
@@ -1399,6 +1440,7 @@ func TestVerifC07History(t *testing.T) {
 						t.Skip("no gpu")
 					}
 					w.inv[i].Res = map[corev1.ResourceName]int64{apiext.ResourceGPUCore: 100, apiext.ResourceGPUMemoryRatio: 100, apiext.ResourceGPUMemory: c07GenGPUMem(t, "gpuMem")}
+					w.markResized(w.inv[i].Minor)
 					loss = true
 				case "deleteCR":
 					loss = true
@@ -1537,8 +1579,13 @@ func TestVerifC07Allocate(t *testing.T) {
 				}
 				res[apiext.ResourceGPUMemoryRatio] = c07Quantity(apiext.ResourceGPUMemoryRatio, ratio)
 				res[apiext.ResourceGPUMemory] = c07Quantity(apiext.ResourceGPUMemory, mem)
-				for _, rn := range []corev1.ResourceName{apiext.ResourceGPUCore, apiext.ResourceGPUMemoryRatio, apiext.ResourceGPUMemory} {
-					requested["gpu/"+string(rn)] = true
+				// the memory view the pod asked in (the other one is what fillGPUTotalMem records for it, truncated)
+				requested["gpu/"+string(apiext.ResourceGPUCore)] = true
+				if ratio*T/100 == mem {
+					requested["gpu/"+string(apiext.ResourceGPUMemoryRatio)] = true
+				}
+				if int64(float64(mem)/float64(T)*100) == ratio && ratio*T/100 != mem {
+					requested["gpu/"+string(apiext.ResourceGPUMemory)] = true
 				}
 			} else {
 				rn := c07TypeResource(d.Type)
